@@ -71,7 +71,9 @@ def run_rules(pid, fdir, tier="quick", root=None):
 def selftest(pid, only=None, verbose=True):
     """returns (n_run, failures[list of str])"""
     import mutants
-    ms = [m for m in mutants.MUTANTS if m["prop"] == pid and (only is None or m["id"] == only)]
+    # the mutants of this property, plus (thorough tier of a single property) every behaviour-preserving control, judged by
+    # this property's rules only
+    ms = [m for m in mutants.MUTANTS if (m["prop"] == pid or (m.get("control") and pid != "ALL" and only is None)) and (only is None or m["id"] == only)]
     failures = []
     results = []
     for m in ms:
